@@ -524,6 +524,7 @@ func (w *world) apply(line string) string {
 	}
 	app := w.s.App
 	before := w.snapshot()
+	allowAll0 := w.allowSnap()
 	kind := "ok"
 	class := f[0]
 	ret := ""
@@ -786,7 +787,7 @@ func (w *world) apply(line string) string {
 			nums = append(nums, n)
 		}
 		sp, from, to := nums[0], nums[1], nums[2]
-		if sp != w.contract || (mode != "atomic" && mode != "each") || (len(f)-5)%2 != 0 {
+		if sp != w.contract || (mode != "atomic" && mode != "each") || (len(f)-5)%2 != 0 || len(f)-5 > 12 {
 			return "bad-op"
 		}
 		type item struct {
@@ -807,7 +808,9 @@ func (w *world) apply(line string) string {
 				panic(err)
 			}
 			items = append(items, item{v, x})
-			nodes = append(nodes, &evmx.Node{Op: "pre", Kind: evmx.KCall, To: w.staked, Data: data, Swallow: mode == "each"})
+			// each call is given 4M gas (of the 30M of the transaction): a FAILED precompile call burns all the gas it was
+			// given, so forwarding "all" gas would leave the later calls of an `each` group nothing to run on (gas is not modelled)
+			nodes = append(nodes, &evmx.Node{Op: "pre", Kind: evmx.KCall, To: w.staked, Data: data, Swallow: mode == "each", Gas: 4_000_000})
 		}
 		if err := evmx.Install(w.s.Ctx, app, w.contractAddr, evmx.Assemble(nodes)); err != nil {
 			panic(err)
@@ -818,7 +821,11 @@ func (w *world) apply(line string) string {
 			allow0[it.v] = app.StakingKeeper.GetAllowance(w.ctx(), w.vals[it.v], w.accs[from], w.accs[sp])
 		}
 		caller := g0user(w)
-		kind = kindOf(w.ethTxTo(caller, w.contractAddr, nil), false)
+		errText := w.ethTxTo(caller, w.contractAddr, nil)
+		if os.Getenv("C11_DEBUG") != "" && errText != "" {
+			fmt.Fprintln(os.Stderr, "multiFrom error:", errText)
+		}
+		kind = kindOf(errText, false)
 		after := w.snapshot()
 		// per validator: the allowance went down by exactly the shares that left the owner's delegation, the same shares
 		// arrived at the recipient, the validator's tokens and total shares did not move
@@ -860,6 +867,7 @@ func (w *world) apply(line string) string {
 	default:
 		return "bad-op"
 	}
+	w.checkAllowFrame(f, allowAll0)
 	w.out.Count(f[0] + ":" + kind)
 	w.out.Nontrivial(class + ":" + kind)
 	if kind == "panic" {
@@ -874,6 +882,57 @@ func (w *world) apply(line string) string {
 		w.invariants(f[0])
 	}
 	return kind + " | " + w.dump() + ret
+}
+
+// allowSnap: every allowance record of the store, keyed by (validator, owner, spender) as stored
+func (w *world) allowSnap() map[string]string {
+	m := map[string]string{}
+	w.s.App.StakingKeeper.IterateAllAllowance(w.ctx(), func(valAddr sdk.ValAddress, owner, spender sdk.AccAddress, a *big.Int) bool {
+		if a.Sign() != 0 {
+			m[fmt.Sprintf("%d:%d:%d", w.valIdx(valAddr), w.accIdx(owner), w.accIdx(spender))] = a.String()
+		}
+		return false
+	})
+	return m
+}
+
+// checkAllowFrame: an operation changes no allowance other than the one(s) it names — approve: (validator, caller,
+// spender); transferFrom / multiFrom: (validator, from, spender) of each call; everything else: none (allowances are per
+// validator: an approval or a transfer at one validator leaves the same pair's allowance at every other validator alone)
+func (w *world) checkAllowFrame(f []string, before map[string]string) {
+	if w.dead {
+		return
+	}
+	named := map[string]bool{}
+	switch f[0] {
+	case "approve":
+		named[fmt.Sprintf("%s:%s:%s", f[3], f[1], f[2])] = true
+	case "transferFrom":
+		named[fmt.Sprintf("%s:%s:%s", f[4], f[2], f[1])] = true
+	case "multiFrom":
+		for i := 5; i+1 < len(f); i += 2 {
+			named[fmt.Sprintf("%s:%s:%s", f[i], f[3], f[2])] = true
+		}
+	}
+	after := w.allowSnap()
+	keys := map[string]bool{}
+	for k := range before {
+		keys[k] = true
+	}
+	for k := range after {
+		keys[k] = true
+	}
+	var ks []string
+	for k := range keys {
+		ks = append(ks, k)
+	}
+	sort.Strings(ks)
+	for _, k := range ks {
+		if before[k] != after[k] && !named[k] {
+			w.violate(fmt.Sprintf("%s changed an allowance it does not name: (validator:owner:spender) %s from %q to %q", f[0], k, before[k], after[k]))
+			return
+		}
+	}
 }
 
 func some(n int) string {
